@@ -171,7 +171,7 @@ pub fn random(run: &mut Runner, seed: u64, count: u64) {
             continue;
         }
         let n = chunks.len();
-        let fault = *["none", "none", "drop", "dup", "board", "chip", "eom", "resize", "idgap", "swapids"]
+        let fault = *["none", "none", "drop", "dup", "board", "chip", "eom", "resize", "idgap", "swapids", "shiftids"]
             .choose(&mut rng)
             .unwrap();
         let i = rng.gen_range(0..n);
@@ -194,6 +194,17 @@ pub fn random(run: &mut Runner, seed: u64, count: u64) {
                 }
             }
             "idgap" => chunks[i].id = chunks[i].id.wrapping_add(*[1u16, 0xFFFF, 0x100, n as u16].choose(&mut rng).unwrap()),
+            "shiftids" => {
+                // two different chunks share an id and no id is skipped: ids 0..j-1, j-1, j, .. n-2
+                if n >= 2 {
+                    let j = rng.gen_range(1..n);
+                    for c in chunks.iter_mut() {
+                        if usize::from(c.id) >= j {
+                            c.id -= 1;
+                        }
+                    }
+                }
+            }
             "swapids" => {
                 // exchange the ids of two chunks: the bag of ids is intact but payload order changes
                 let j = rng.gen_range(0..n);
